@@ -64,6 +64,7 @@ class Round:
         rng.shuffle(self.fresh)
         self.pool = []
         self.lines = []
+        self.model_reqs = []
 
     # ------------------------------------------------------------------ helpers
     def add(self, arr, exp, text, deps=(), op='leaf'):
@@ -259,7 +260,11 @@ class Round:
         else:
             r = f.arr.replace(spec); text = '%s.replace(%s)' % (self.ref(f), txt)
         deps = [f] + [t[1] for k, sd, t in items if t[0] == 'entry']
-        return self.add(r, self.after_replace(f, items), text, deps, 'replace')
+        e = self.add(r, self.after_replace(f, items), text, deps, 'replace')
+        if e is not None:   # the same step for the Lean model of `_Replace.__init__` (Model/C06Func.lean: announceReplace)
+            self.model_reqs.append((e, 'fargs|%s|%s|%s' % (' '.join(f.exp), ' '.join(k for k, _, _ in items),
+                                                          ';'.join(t[1] if t[0] == 'name' else ' '.join(t[1].exp) for _, _, t in items))))
+        return e
 
     def derivative(self):
         rng = self.rng
@@ -333,12 +338,14 @@ def stream_funcargs(c, time_limit, EvalTimeout):
     from nutils import mesh, function
     rng = c.rng
     quick = c.tier == 'quick'
-    nrounds = 60 if quick else 2500
+    nrounds = 60 if quick else 1500
     kinds = {bool: 'b', int: 'i', float: 'f', complex: 'c'}
     nbad = collections.Counter(); nchecked = 0; nmodel = collections.Counter(); nbuildexc = 0; mismatches = {}
+    model_cases = []
     for iround in range(nrounds):
         R = Round(c, rng, function, mesh, with_topo=rng.random() < .3)
         R.build(rng.randint(5, 12))
+        model_cases += [(line, sorted(e.arr.arguments), sorted(e.exp), e.text) for e, line in R.model_reqs]
         nbuildexc += len(getattr(R, 'build_exc', ()))
         for k, tname, msg in getattr(R, 'build_exc', ()):
             c.broken_no_input('corr:func:construct:' + k, 'a %s generated inside its documented domain raised %s: %s' % (k, tname, msg),
@@ -418,6 +425,18 @@ def stream_funcargs(c, time_limit, EvalTimeout):
         if not nbad[cls]:   # the whole stream was the search for a failing input of this class
             c.broken_no_input('corr:func:arguments:' + cls, 'function.Array %s announces %r, the argument algebra of the operations gives %r; no evaluation failed' % (
                 cls, announced, expected), dict(stream='funcargs', cls=cls, program=program, announced=announced, expected=expected))
+    # (M) the Lean function `announceReplace` (about which `Func.eval_depends_only_on_announced_arguments` is proved) against the real table
+    answers = c.model([line for line, _, _, _ in model_cases])
+    nmis = 0
+    for (line, real, tracked, text), a in zip(model_cases, answers):
+        ok = a.startswith('names') and sorted(a.split()[1:]) == real
+        if not ok:
+            nmis += 1
+            if not nbad['_Replace'] and nmis == 1:
+                c.broken_no_input('corr:func:announceReplace', '_Replace announces %r, the Lean model of _Replace.__init__ gives %r (%s)' % (real, a, text),
+                                  dict(stream='funcargs', request=line, model=a, real=real, tracked=tracked, step=text))
+    c.obligation('corr:func:announceReplace', nmis == 0, 'correspondence', '%d replace steps: announced names of the real _Replace == Lean announceReplace' % len(model_cases))
+    c.count('funcargs-model-replace-steps', len(model_cases))
     c.count('funcargs-arrays-checked', nchecked)
     c.obligation('funcargs:announced-arguments-suffice', not nbad, 'exploration', '%d arrays of %d random argument-rewriting programs evaluated with exactly the announced arguments' % (nchecked, nrounds))
     c.obligation('corr:func:arguments', not nmodel, 'correspondence', 'announced table == argument algebra (replace / derivative / linearize / field / integral / bind) on %d arrays' % nchecked)
